@@ -614,13 +614,14 @@ def gen_scenario(rng, cfg):
     return {"cfg": cfg, "steps": steps}
 
 
-def patient(client, first=3.0, more=12.0):
+def patient(client, first=3.0, more=12.0, alive=None):
     """read one message; a machine under heavy load may be slow, which is not what the property is about: keep
-    waiting for the outstanding answer before calling it missing"""
-    r = client.recv_msg(timeout=first)
-    if r == "TIMEOUT":
-        r = client.recv_msg(timeout=more)
-    return r
+    waiting for the outstanding answer before calling it missing — but not once the request loop is known to be dead"""
+    t_end = time.time() + first + more
+    while True:
+        r = client.recv_msg(timeout=min(0.5, max(0.05, t_end - time.time())))
+        if r != "TIMEOUT" or time.time() >= t_end or (alive is not None and not alive()):
+            return r
 
 
 def kill_other_threads():
@@ -761,7 +762,7 @@ class Player:
             wseq[0] = (wseq[0] + 1) % 65536
             wtouch()
             err = w.send(rd.invoke_msg("t", "echo", (x,), seq=wseq[0]))
-            r = patient(w, first, more)
+            r = patient(w, first, more, srv.loop_alive)
             if err or not isinstance(r, dict):
                 noreply("witness call echo(%d)" % x, err or r)
             elif r.get("type") != protocol.MSG_RESULT or r.get("flags", 0) & protocol.FLAGS_EXCEPTION or r.get("seq") != wseq[0] \
@@ -772,7 +773,7 @@ class Player:
             wseq[0] = (wseq[0] + 1) % 65536
             wtouch()
             err = w.send(rd.ping_msg(seq=wseq[0]))
-            r = patient(w, first, more)
+            r = patient(w, first, more, srv.loop_alive)
             if err or not isinstance(r, dict):
                 noreply("witness ping", err or r)
             elif r.get("type") != protocol.MSG_PING or r.get("seq") != wseq[0]:
@@ -785,7 +786,7 @@ class Player:
                 self.opened += 1
                 f = rd.RawClient(srv.port, timeout=3.0)
                 f.send(rd.connect_msg("t", "serpent"))
-                m = patient(f, first, budget)
+                m = patient(f, first, budget, srv.loop_alive)
                 if not isinstance(m, dict) or m.get("type") not in (protocol.MSG_CONNECTOK, protocol.MSG_CONNECTFAIL):
                     if m == "TIMEOUT":
                         HANGS[0] += 1
@@ -796,7 +797,7 @@ class Player:
                         fv.append(("fresh-handshake-failed:" + stype, "a new client's handshake was refused: %r" % (refusal,)))
                 else:
                     f.send(rd.ping_msg(seq=4))
-                    m2 = patient(f, first, budget)
+                    m2 = patient(f, first, budget, srv.loop_alive)
                     if not (isinstance(m2, dict) and m2.get("type") == protocol.MSG_PING and m2.get("seq") == 4):
                         fv.append(("fresh-ping-failed:" + stype, "a new client's ping got %r" % (m2,)))
                 f.close()
@@ -835,7 +836,18 @@ class Player:
                 if fv:
                     stuck[0] = True
             elif op == "open":
-                self.settle(timeout=5.0)
+                if not self.settle(timeout=min(5.0, 2 * long)) and srv.loop_alive() and self.acct() > rec.live_conns():
+                    time.sleep(0.2)
+                    a, lc = self.acct(), rec.live_conns()
+                    if a > lc:
+                        # no use carrying on: whoever holds the slot is not serving a connection any more
+                        HANGS[0] += 1
+                        stuck[0] = True
+                        viol.append((("worker-stranded:thread" if stype == "thread" else "accounting-not-restored:multiplex"),
+                                     "%s is %d while only %d connection(s) are open: %s" % (
+                                         "Pool.busy" if stype == "thread" else "the number of selector registrations", a, lc,
+                                         "a worker never returned to the pool" if stype == "thread" else "a closed connection is still registered")))
+                        break
                 try:
                     clients[st[1]] = rd.RawClient(srv.port, timeout=2.0)
                     self.opened += 1
@@ -883,7 +895,7 @@ class Player:
             if a == 1 or not srv.loop_alive():
                 break
             time.sleep(0.2)               # a straggler still being served: look again
-            self.settle(expect=1, timeout=3.0)
+            self.settle(expect=1, timeout=min(3.0, long))
             a = self.acct()
         if not srv.loop_alive():
             viol.append(("request-loop-died:" + stype, "the daemon's request loop ended with %r" % (srv.loop_exception,)))
